@@ -8,18 +8,21 @@ def file_lines(d, shape, n):
     """-> list of (cols8, items, extras) for n lines; ids are unique."""
     out = []
     for i in range(n):
-        fid = "f%d" % i
-        cols = ["chr1", "src", ("gene", "mRNA", "exon")[i % 3], str(10 + 5 * i), str(20 + 5 * i), ".", "+-"[i % 2], "."]
+        # ids and coordinates are deliberately NOT in file order (file order must come from the database, not from sorting)
+        fid = "f%d" % i if i == 0 else "%sf%d" % ("zyxwvutsrqpo"[i % 12], i)
+        st = 10 + 5 * ((i * 5) % 13)
+        cols = [("chr1", "chr10", "Chr2")[i % 3 if shape == "same" else 0], "src", ("gene", "mRNA", "exon")[i % 3], str(st), str(st + 10), ".", "+-"[i % 2], "."]
         extras = []
         tag = ["t%d" % i, "u%d" % i]            # multi-valued key on every line: exhibits 'repeated keys'
         if shape == "same":
             items = [("ID", [fid]), ("Name", ["nm%d" % i]), ("tag", tag)]
         elif shape == "late":
             # keys: previously seen keys in first-seen order, then new keys
-            table = [[], ["Note"], ["late2"], ["Note", "z_last"], ["Note", "late2"], ["late2", "z_last"]]
+            # late keys are first seen in NON-alphabetical order (note, late2, a_last)
+            table = [[], ["note"], ["late2"], ["note", "a_last"], ["note", "late2"], ["late2", "a_last"]]
             items = [("ID", [fid]), ("tag", tag)]
             for k in table[i % 6]:
-                items.append((k, ["1", "2"] if k == "z_last" else ["%s%d" % (k[0], i)]))
+                items.append((k, ["1", "2"] if k == "a_last" else ["%s%d" % (k[0], i)]))
         elif shape == "flags":
             items = [("ID", [fid]), ("tag", tag), ("flagged", [])]
             if i % 2:
@@ -34,13 +37,17 @@ def file_lines(d, shape, n):
             items = [("ID", [fid]), ("tag", tag)]
             if i % 3 == 1:
                 cols[3] = cols[4] = "."
+            if i % 6 == 4:
+                cols[3] = "."            # only one of the two coordinates missing
+            if i % 6 == 5:
+                cols[4] = "."
             if i % 3 == 2:
                 cols[5], cols[7] = "0.9", "2"
-            extras = [[], ["e1"], ["e1", "e 2"], ["e1", ""], [""], ["", "x"]][i % 6]      # incl. empty trailing columns
+            extras = [[], ["e1"], ["e1", "e 2"], ["e1", ""], [""], ["", "x"], ["7"], ["true"], ['"q"'], ["[1,2]"], ["null"]][i % 11]   # incl. empty / JSON-looking
         elif shape == "parent":
             items = [("ID", [fid]), ("tag", tag)]
             if i >= 1:
-                items.append(("Parent", ["f0"] if i < 3 else ["f0", "f1"]))
+                items.append(("Parent", ["f0"] if i < 3 else ["f0", "yf1"]))
         else:
             raise ValueError(shape)
         assert G.well_formed(d, items) and G.exhibits_all(d, items), (d, shape, items)
